@@ -326,7 +326,7 @@ def match_known(known, prop, lane, case, text):
         if k.get("status") != "known" or k["property"] != prop:
             continue
         m = k.get("match", {})
-        if "lane" in m and m["lane"] != lane:
+        if "lane" in m and lane not in (m["lane"] if isinstance(m["lane"], list) else [m["lane"]]):
             continue
         if "oracle_re" in m and not re.search(m["oracle_re"], text):
             continue
